@@ -25,14 +25,14 @@ def _verify_one(q):
     try:
         r = vc.verify_function(eng, q, eng.contracts[q], specsym.make_args)
         out = dict(qualname=q, obligations=r.obligations, paths=r.paths, forks=r.forks, covers=r.covers,
-                   limitation=r.limitation, source_hash=r.source_hash, wall=time.time() - t0)
+                   limitation=r.limitation, source_hash=r.source_hash, wall=time.time() - t0, hints=dict(eng.hints))
     except CheckerError as e:
         out = dict(qualname=q, obligations=[], paths=0, forks=0, covers={}, limitation=f"checker: {e}", source_hash=None,
-                   wall=time.time() - t0)
+                   wall=time.time() - t0, hints={})
     return out
 
 
-def arg_descs(contract, fork_tag, model):
+def arg_descs(contract, fork_tag, model, hints=None):
     """concrete argument descriptors from a fork tag ('self=Other,n=int,...') and a solver model"""
     from .specsym import TYPE_NAMES
     fork = dict(kv.split("=", 1) for kv in fork_tag.split(",")) if fork_tag else {}
@@ -74,6 +74,8 @@ def arg_descs(contract, fork_tag, model):
             out[name] = {"kind": "str", "value": s if len(s) >= 2 else "ab"}
         elif tag == "str":
             out[name] = {"kind": "str", "value": _smt_str(mv, "s")}
+            if contract["params"][name] in ("optname", "name"):
+                out[name] = {"kind": "strs", "values": list((hints or {}).get("distinguishing_strings", [])) + ["nm", "_x1"]}
         else:
             out[name] = {"kind": "other"}
     return out
@@ -153,7 +155,7 @@ def run_functions(report, qualnames, tier="quick", bounded_limit=None, monitor=T
             for o in obs[:6]:
                 if o.get("fork") is None:
                     continue
-                descs = arg_descs(c, o["fork"], o.get("model"))
+                descs = arg_descs(c, o["fork"], o.get("model"), r.get("hints"))
                 try:
                     rr = native("run_module", {"module": "pvc.bex_contract", "func": "replay",
                                                "args": {"qualname": q, "arg_descs": descs}})
